@@ -601,7 +601,8 @@ fn boundary_family() -> Vec<(Fmt, Op)> {
     }
     let d18 = pow10(18);
     for tg in [Fmt::Dec.min() - 1, Fmt::Dec.min(), Fmt::Dec.min() + 1, Fmt::Dec.max() - 1, Fmt::Dec.max(), Fmt::Dec.max() + 1, BigInt::zero()] {
-        for off in [BigInt::zero(), BigInt::one(), -BigInt::one(), &d18 - 1, -(&d18 - 1), d18.clone(), -d18.clone()] {
+        let d18m: BigInt = &d18 - 1;
+        for off in [BigInt::zero(), BigInt::one(), -BigInt::one(), d18m.clone(), -d18m.clone(), d18.clone(), -d18.clone()] {
             let p = &tg * &d18 + off;
             if Fmt::PDec.fits(&p) {
                 out.push((Fmt::PDec, Op::PdecToDec(p)));
